@@ -19,8 +19,8 @@ RULE = ('tuples of 1-5 page layouts x 1-6 lines with identical ids, per-engine c
 ASSUMPTIONS = ['every transcription is over its own engine\'s charset', 'the mean character confidence is the repository\'s get_line_confidence (itself under the C16 contracts), 0.5 per character when alignment raises ValueError, -10 for empty/None',
                'confidence equality within 1e-12']
 N = {'quick': 1500, 'thorough': 60000}
-CLASSES = ['mixed', 'mixed', 'ties', 'self_merge', 'all_empty', 'different_charsets', 'single_engine', 'unalignable', 'per_line_charsets', 'merge_of_merges']
-REQUIRED = ['main_runs', 'main_tie_lines', 'per_line_charset_merges', 'merges', 'lines_checked', 'winner_not_first', 'ties_checked', 'self_merges', 'no_positive_confidence_lines']
+CLASSES = ['mixed', 'mixed', 'ties', 'self_merge', 'all_empty', 'different_charsets', 'single_engine', 'unalignable', 'per_line_charsets', 'merge_of_merges', 'near_ties', 'raw_scores', 'repeated_ids']
+REQUIRED = ['near_ties_checked', 'lines_with_ids_repeated_per_region', 'raw_score_lines', 'main_runs', 'main_tie_lines', 'per_line_charset_merges', 'merges', 'lines_checked', 'winner_not_first', 'ties_checked', 'self_merges', 'no_positive_confidence_lines']
 
 
 def setup(ctx):
@@ -67,14 +67,32 @@ def gen(rng, i, ctx):
         engines.append({'chars': cs, 'lines': lines})
     if cls == 'ties' and ne >= 2:
         engines[int(rng.integers(1, ne))] = copy.deepcopy(engines[0])
-    return {'cls': cls, 'engines': engines, 'nl': nl}
+    if cls == 'near_ties':
+        # a later engine whose posteriors are the first engine's raised by a hair: strictly more confident, by less than 1e-9 relative
+        for ld in engines[0]['lines']:
+            ld['mode'] = 'transformer'
+        ne = max(ne, 2)
+        engines = engines[:1] + [copy.deepcopy(engines[0]) for _ in range(ne - 1)]
+        for e in range(1, ne):
+            for ld in engines[e]['lines']:
+                ld['nudge'] = float(rng.choice([1e-10, 3e-10, 1e-11])) * e
+    if cls == 'raw_scores':
+        # transformer-shaped matrices holding raw scores of large magnitude (no soft-max applied by the recogniser)
+        for en in engines:
+            for ld in en['lines']:
+                ld['mode'] = 'transformer'
+                ld['magnitude'] = float(rng.choice([30.0, 200.0, 1000.0]))
+    case = {'cls': cls, 'engines': engines, 'nl': nl}
+    if cls == 'repeated_ids':
+        case['ids_per_region'] = True          # lines numbered per region: l0, l1 in r1 and again in r2
+    return case
 
 
 def describe(case):
     return case
 
 
-def build_layout(L, eng, nl):
+def build_layout(L, eng, nl, ids_per_region=False):
     pl = L.PageLayout(id='p', page_size=(400, 600))
     regs = [L.RegionLayout('r1', np.array([[0, 0], [600, 0], [600, 200], [0, 200]])), L.RegionLayout('r2', np.array([[0, 200], [600, 200], [600, 400], [0, 400]]))]
     for k, ld in enumerate(eng['lines']):
@@ -86,6 +104,8 @@ def build_layout(L, eng, nl):
         if ld['mode'] == 'transformer':
             lg = rng.normal(size=(len(labels), C)) * 3
             lg[np.arange(len(labels)), labels] += float(rng.uniform(0, 6))
+            lg = lg * ld.get('magnitude', 1.0)
+            lg[np.arange(len(labels)), labels] += ld.get('nudge', 0.0)
         elif ld['mode'] == 'short':
             lg = rng.normal(size=(max(1, len(labels) - 1) if len(labels) > 1 else 1, C))
             if len(labels) == 1:
@@ -94,7 +114,7 @@ def build_layout(L, eng, nl):
             path = genlib.path_for_labels(rng, labels, C - 1)
             lg = genlib.logits_for_path(rng, path, C, mode=ld['mode'])
         lg[lg == 0] = 0.01
-        line = L.TextLine(id='l%d' % k, baseline=np.array([[10.0, 20.0 + 30 * k], [500.0, 22.0 + 30 * k]]),
+        line = L.TextLine(id='l%d' % (k // 2 if ids_per_region else k), baseline=np.array([[10.0, 20.0 + 30 * k], [500.0, 22.0 + 30 * k]]),
                           polygon=np.array([[10, 5 + 30 * k], [500, 5 + 30 * k], [500, 28 + 30 * k], [10, 28 + 30 * k]], dtype=np.float64),
                           heights=[15.0, 6.0], transcription=t, logits=sparse.csc_matrix(lg), characters=list(cs) + ['<b>'], logit_coords=[0, lg.shape[0]])
         regs[k % 2].lines.append(line)
@@ -118,7 +138,7 @@ def expected_conf(ctx, line):
 def run_merge(case, order, mon, ctx):
     L, M = ctx.layout, ctx.M
     engines = [case['engines'][k] for k in order]
-    layouts = [build_layout(L, e, case['nl']) for e in engines]
+    layouts = [build_layout(L, e, case['nl'], ids_per_region=case.get('ids_per_region', False)) for e in engines]
     if case['cls'] == 'merge_of_merges' and len(layouts) >= 3:
         # multi-step history: merge(E1, E2) first, then merge the result with the remaining engines
         M.merge_layouts(layouts[:2])
@@ -146,6 +166,8 @@ def run_merge(case, order, mon, ctx):
         mon.violation('merge-raises', {'order': order, 'exception': repr(ex)[:300]})
         return
     mon.count('merges')
+    if case['cls'] == 'raw_scores':
+        mon.count('raw_score_lines', nl)
     if case['cls'] in ('per_line_charsets', 'merge_of_merges'):
         mon.count('per_line_charset_merges')
     merged = layouts[0]
@@ -161,6 +183,10 @@ def run_merge(case, order, mon, ctx):
         pos = sorted([c for c in confs if c > 0], reverse=True)
         if len(pos) >= 2 and pos[0] == pos[1]:
             mon.count('ties_checked')
+        elif len(pos) >= 2 and pos[0] - pos[1] <= 1e-9 * pos[0]:
+            mon.count('near_ties_checked')
+        if case.get('ids_per_region'):
+            mon.count('lines_with_ids_repeated_per_region')
         if bi is not None and bi > 0:
             mon.count('winner_not_first')
         if bi is None:
